@@ -225,7 +225,7 @@ def zoo_doc():
     props = [{"name": "p_" + k, "type": cp(t)} for k, t in ZOO_KINDS.items()]
     props += [{"name": "p_%s_in_%s" % (k, w), "type": ZOO_WRAP[w](cp(ZOO_KINDS[k]))} for w in ZOO_WRAP for k in ZOO_INNER]
     props[0]["optional"] = True
-    props[1].update({"documentation": "doc", "since": "3.17.0", "proposed": True, "deprecated": "old"})
+    props[1].update({"documentation": "doc \u00fc\u2713 \u65e5\u672c", "since": "3.17.0", "proposed": True, "deprecated": "old"})
     return {
         "metaData": {"version": "9.9.9"},
         "requests": [
@@ -554,7 +554,10 @@ def tree_digest(root):
     return h.hexdigest()
 
 
-def run_cli(models, plugin, work, tag):
+ASCII_LOCALE = {"LC_ALL": "C", "LANG": "C", "PYTHONUTF8": "0", "PYTHONCOERCECLOCALE": "0"}
+
+
+def run_cli(models, plugin, work, tag, extra_env=None):
     """One real CLI run in scratch dirs; returns exit status, whether the probe ran, whether anything changed."""
     out = os.path.join(work, "out-" + tag)
     test = os.path.join(work, "test-" + tag)
@@ -563,6 +566,7 @@ def run_cli(models, plugin, work, tag):
     before = (tree_digest(out), tree_digest(test))
     probe_out = os.path.join(work, "probe-" + tag + ".json")
     env = dict(os.environ, PYTHONPATH=common.REPO + os.pathsep + common.VERIF, PROBE_OUT=probe_out, PYTHONHASHSEED="0")
+    env.update(extra_env or {})
     mod = "harness.probe_plugin" if plugin == "probe" else plugin
     p = subprocess.run([common.PY, "-m", "generator", "--model"] + models + ["--plugin", mod, "--output-dir", out, "--test-dir", test],
                        cwd=common.REPO, env=env, stdout=subprocess.PIPE, stderr=subprocess.STDOUT, timeout=600)
@@ -643,7 +647,7 @@ def check(tier):
     try:
         def wfile(doc, name):
             p = os.path.join(work, name)
-            json.dump(doc, open(p, "w"))
+            json.dump(doc, open(p, "w", encoding="utf-8"), ensure_ascii=False)     # raw UTF-8 text, as in the committed model
             return p
 
         def do_case(ic):
@@ -654,7 +658,7 @@ def check(tier):
                     docs = [full]
                 elif c["files"] == "trimmed":
                     docs = [trim]
-                elif c["files"] == "zoo":
+                elif c["files"] in ("zoo", "zoo_ascii_locale"):
                     docs = [zoo]
                 elif c["files"] in ("two", "three"):
                     n = 2 if c["files"] == "two" else 3
@@ -682,7 +686,9 @@ def check(tier):
                             {"e": "Load", "docs": enc_docs, "readback": encode(r["rb2"]), "ok": True},
                             {"e": "Eq", "kind": "same", "a": merged, "b": merged, "res": r["eq"] if r["eq"] in ("T", "F") else "raise", "detail": r["eq"]},
                             {"e": "Load", "docs": enc_docs[:1], "readback": encode(r["rb3"]), "ok": True}], c
-                rcode, rb, _ = run_cli(files, "probe", work, tag)
+                # "zoo_ascii_locale": the same CLI run in a process whose locale encoding is ASCII (a JSON file is UTF-8
+                # whatever the locale says; the zoo carries non-ASCII documentation)
+                rcode, rb, _ = run_cli(files, "probe", work, tag, ASCII_LOCALE if c["files"] == "zoo_ascii_locale" else None)
                 ok = rcode == 0 and rb is not None
                 return [{"e": "Load", "docs": [encode(d) for d in docs], "readback": encode(rb["model"]) if ok else {"k": "null"}, "ok": ok}], c
             if c["c"] == "eq":
